@@ -820,6 +820,8 @@ def _part_gen(task, rec, only=None):
             rec.count('skipped_out_of_domain_odd_R_antithetic')
             continue
         cases, complete = gen_cases_for(adv, n, r)
+        if task.get('sweep'):
+            cases = cases[:1]       # the sweep over every number of draws: first tape, first answer
         if only:
             cases = [(only['tape'], tuple(_detuple(only['perm'])))]
         if adv['mlhs']:
@@ -1960,6 +1962,14 @@ def tasks(tier, seed):
             k = 8
             for i in range(k):
                 t.append(dict(part='gen', N=n, R=r, shard=[i, k]))
+    # "any requested size", every catalogue entry: every number of draws 1..T for one observation (and 7 observations where 7
+    # divides it), first tape / first shuffle answer, all clauses of part gen
+    top_g = 128 if tier == 'quick' else 400
+    have = {tuple(q) for q in sz}
+    for rr in range(1, top_g + 1):
+        for nn in ((1, 7) if rr % 7 == 0 else (1,)):
+            if (nn, rr // nn) not in have:
+                t.append(dict(part='gen', N=nn, R=rr // nn, sweep=True))
     t.append(dict(part='hskip', sizes=[list(s) for s in sz]))
     small = [list(s) for s in sz if s[0] * s[1] <= (20 if tier == 'quick' else 60)]
     for base in ([2, 3, 5, 7] if tier == 'quick' else [2, 3, 5, 7, 11, 13]):
